@@ -14,6 +14,7 @@ import (
 	"strconv"
 	"strings"
 	"sync"
+	"syscall"
 	"time"
 )
 
@@ -118,7 +119,17 @@ func (j *Job) Run(c *Check) {
 
 // worker args: worker <k> <P> <from> | worker only <b> <skipcsv>
 func (j *Job) serve() {
-	w := &W{out: bufio.NewWriterSize(os.Stdout, 1<<16), hist: map[string]int64{}, skip: map[int]bool{}}
+	// The protocol gets a private copy of stdout; fd 1 is pointed at /dev/null so
+	// that library code printing to stdout (parser Trace mode ...) cannot corrupt it.
+	pfd, err := syscall.Dup(1)
+	if err != nil {
+		fmt.Fprintln(os.Stderr, "dup:", err)
+		os.Exit(2)
+	}
+	if dn, err := os.OpenFile("/dev/null", os.O_WRONLY, 0); err == nil {
+		syscall.Dup2(int(dn.Fd()), 1)
+	}
+	w := &W{out: bufio.NewWriterSize(os.NewFile(uintptr(pfd), "protocol"), 1<<16), hist: map[string]int64{}, skip: map[int]bool{}}
 	debug.SetMemoryLimit(int64(j.MemLimitMB) << 20 * 3 / 4)
 	go func() { // memory watchdog
 		var ms runtime.MemStats
@@ -411,6 +422,10 @@ func ClassifyCrash(stderr string, hang bool) *Failure {
 
 // TopFrame returns the innermost stack frame inside goplus/xgo.
 func TopFrame(stack string) string {
+	// with re-panicking deferred functions the original panic is the last "panic(" frame
+	if i := strings.LastIndex(stack, "\npanic("); i >= 0 {
+		stack = stack[i:]
+	}
 	for _, l := range strings.Split(stack, "\n") {
 		l = strings.TrimSpace(l)
 		if strings.HasPrefix(l, "github.com/goplus/xgo/") {
